@@ -141,7 +141,7 @@ bool lib_marshal(DBusMessage* m, std::string& out) {
   return true;
 }
 
-bool lib_append(DBusMessageIter* it, const Value& v, bool use_fixed) {
+bool lib_append(DBusMessageIter* it, const Value& v, int use_fixed) {
   if (is_fixed_type(v.t)) {
     DBusBasicValue bv; memset(&bv, 0, sizeof bv);
     switch (v.t) { case 'y': bv.byt = (unsigned char)v.u; break; case 'n': case 'q': bv.u16 = (dbus_uint16_t)v.u; break; case 'x': case 't': case 'd': bv.u64 = v.u; break; default: bv.u32 = (dbus_uint32_t)v.u; }
@@ -153,13 +153,23 @@ bool lib_append(DBusMessageIter* it, const Value& v, bool use_fixed) {
     if (!dbus_message_iter_open_container(it, DBUS_TYPE_ARRAY, v.s.c_str(), &sub)) return false;
     if (use_fixed && v.s.size() == 1 && is_fixed_type(v.s[0]) && v.s[0] != 'h' && !v.kids.empty()) {
       int sz = fixed_size(v.s[0]);
-      std::string raw; for (auto& k : v.kids) raw.append((const char*)&k.u, sz);  // little-endian host
-      // aligned copy
-      void* p = aligned_alloc(8, (raw.size() + 7) & ~(size_t)7); memcpy(p, raw.data(), raw.size());
-      const void* cp = p;
-      bool ok = dbus_message_iter_append_fixed_array(&sub, v.s[0], &cp, (int)v.kids.size());
-      free(p);
-      if (!ok) { dbus_message_iter_abandon_container(it, &sub); return false; }
+      // mode 1: one block.  mode 2: the documented mixed use - the first third element by element, then two blocks, then an empty block
+      size_t n = v.kids.size(), done = 0;
+      std::vector<size_t> blocks;
+      if (use_fixed == 2) {
+        size_t a = n / 3;
+        for (; done < a; done++) if (!lib_append(&sub, v.kids[done], 0)) { dbus_message_iter_abandon_container(it, &sub); return false; }
+        size_t b = (n - a) / 2; blocks = {b, n - a - b, 0};
+      } else blocks = {n};
+      for (size_t cnt : blocks) {
+        std::string raw; for (size_t i = done; i < done + cnt; i++) raw.append((const char*)&v.kids[i].u, sz);  // little-endian host
+        void* p = aligned_alloc(8, ((raw.size() + 7) & ~(size_t)7) + 8); memcpy(p, raw.data(), raw.size());   // aligned copy
+        const void* cp = p;
+        bool ok = dbus_message_iter_append_fixed_array(&sub, v.s[0], &cp, (int)cnt);
+        free(p);
+        if (!ok) { dbus_message_iter_abandon_container(it, &sub); return false; }
+        done += cnt;
+      }
     } else {
       for (auto& k : v.kids) if (!lib_append(&sub, k, use_fixed)) { dbus_message_iter_abandon_container(it, &sub); return false; }
     }
